@@ -496,7 +496,17 @@ func (s *CAStore) GetCacheFileMetadata(name string, md metadata.Metadata) error 
 	}
 
 	// Fallback to disk
-	return s.cacheStore.GetCacheFileMetadata(name, md)
+	err := s.cacheStore.GetCacheFileMetadata(name, md)
+	if errors.Is(err, metadata.ErrCorruptTorrentMeta) {
+		// Metadata files are written in place (create, then write), so a crash in
+		// between leaves a metainfo file which exists but cannot be decoded. The
+		// blob itself is intact (it is only renamed into the cache after it was
+		// verified), so report the metainfo as missing: callers regenerate missing
+		// metainfo on demand, which overwrites the corrupt file.
+		log.With("name", name).Warnf("Treating undecodable torrent meta as missing: %s", err)
+		return os.ErrNotExist
+	}
+	return err
 }
 
 // GetCacheFileStat overrides cacheStore.GetCacheFileStat to check memory cache first.
